@@ -108,6 +108,12 @@ def nextK (h : List Ev) (n : Node) (p : Nat) : Nat :=
     | .next j => if j < 250 ∧ k ≤ j then j + 1 else k
     | _ => k) 0
 
+/-- `player.partitioned()` for a node at its `k`-th next step (Go step `next + k`) of period `p`: from here on every next / fast
+vote and every period change re-broadcasts the freshest bundle and the staged or pinned payload (`partitionPolicy`).  This is the
+mechanism the total delivery of `phase` abstracts for nodes that are more than one period behind; the step function itself does
+not use it. -/
+def partitioned (k p : Nat) : Bool := decide (3 ≤ k ∨ 3 ≤ p)
+
 /-! ### delivery -/
 
 def nextVals (P : Params) (h : List Ev) (q : Nat) : List Val :=
